@@ -1397,16 +1397,27 @@ def generate(prop, verif_seed, idx, tier="quick", cls=None):
         text, src = W.base_text(sig, conds), "gen"
     if use_facts:
         obj["facts"] = [_gen_fact(g, sig)]
+    sparse = False
     if kind == "custom":
         nw = 2 ** len(sig)
         obj["ranks"] = {format(i, "0%db" % len(sig)): g.randrange(0, 5) for i in range(nw)}
         obj["with_bb"] = g.random() < 0.5
+        if g.random() < 0.3 and nw >= 4:
+            # a partially specified custom ranking: some worlds are simply absent from the table
+            for w in g.sample(sorted(obj["ranks"]), g.randint(1, nw // 2)):
+                del obj["ranks"][w]
+            sparse = True
     queries = []
     for _ in range(g.randint(2, 5)):
         t = W.cond_text(W.gen_query(g, sig, conds))
         if t not in queries:
             queries.append(t)
     ops = _gen_rank_ops(g, sig, queries, g.randint(0, 6), weights=[50, 8, 6, 5, 15, 4, 0, 6, 0])
+    if sparse:
+        # only worlds that the table knows can be asked for; formula ranks / acceptance would (rightly) refuse
+        present = sorted(obj["ranks"])
+        ops = [dict(op, w=g.choice(present)) if op["op"] == "rank" else op for op in ops if op["op"] in ("rank", "read", "all")]
+        queries = []
 
     def sl():
         return {"op": "saveload", "path": g.choice(PATHS_OCF), "where": g.choice(["inproc", "inproc", "restart"]), "adopt": g.random() < 0.5, "sseed": g.randrange(1000), "nworlds": g.randint(0, 4), "nqueries": g.randint(0, 2)}
@@ -1479,7 +1490,7 @@ def generate(prop, verif_seed, idx, tier="quick", cls=None):
                 ops.append({"op": "new_impacts", "impacts": [g.randrange(0, 4) for _ in range(nconds)]})
             else:
                 ops.append(sl())
-        if g.random() < 0.4:
+        if g.random() < 0.4 and not sparse:
             ops.extend(_gen_rank_ops(g, sig, queries, g.randint(1, 2), weights=[60, 8, 4, 4, 14, 4, 0, 6, 0]))
     final = {"where": g.choice(["inproc", "restart"])}
     if tier == "thorough" and g.random() < 0.04:
